@@ -184,3 +184,20 @@ impl CombinedFilter {
     #[verifier::external_body]
     pub fn offload_filter(&mut self) -> (r: usize) ensures final(self).keys() == old(self).keys() { unimplemented!() }
 }
+
+// std: slice::partition_point(pred) on a slice partitioned w.r.t. pred: index of the first element
+// for which pred is false (documented contract). Two instances by timestamp.
+#[verifier::external_body]
+pub fn ppoint_ts_lt(v: &Vec<RecordHeader>, ts: u64) -> (r: usize)
+    requires ts_sorted(v@)
+    ensures r <= v.len(),
+        forall|i: int| 0 <= i < r ==> hdr_ts(v@[i]) < ts,
+        forall|i: int| r <= i < v.len() ==> hdr_ts(v@[i]) >= ts,
+{ unimplemented!() }
+#[verifier::external_body]
+pub fn ppoint_ts_le(v: &Vec<RecordHeader>, ts: u64) -> (r: usize)
+    requires ts_sorted(v@)
+    ensures r <= v.len(),
+        forall|i: int| 0 <= i < r ==> hdr_ts(v@[i]) <= ts,
+        forall|i: int| r <= i < v.len() ==> hdr_ts(v@[i]) > ts,
+{ unimplemented!() }
